@@ -9,6 +9,7 @@ import CxxModel.Theorems.FnGen
 import CxxModel.Theorems.DeclPre
 import CxxModel.Theorems.ParamGen
 import CxxModel.Theorems.ArrayDecl
+import CxxModel.Theorems.AliasPre
 import CxxModel.Theorems.MemberKinds
 namespace Cxx
 open P
@@ -305,6 +306,71 @@ def Member.arrayField (v : ArrDeclToks) : Member env (F + 1) (core (F + 1) (D + 
           b1 b0 bmid bx bo bc b' blk rest hst hk acc hacc hmu (by rw [hnf]; simp) hspec hfr hfirst h1 h5 hhead h8 hpre hfn hnr rfl h10 hx hxv
           h11 hob hn hcb hyc hy.single_inv hs hF
       exact ⟨w7, _, ev, hi7, hsig7, hst7, hev7, ⟨dox, hk7, hid7, hpar7⟩, hmu7⟩)
+
+/-- `typedef S prefix x ;` at namespace scope: any type specifier, any declarator prefix -/
+def Item.typedefPre (kw : Tok) (v : DeclToks) : Item env F (core F (D + 1 + 1 + 1 + 1)) :=
+  Item.ofToks env F (kw :: v.toks) (kw.type = "typedef" ∧ v.x.value ≠ "" ∧ v.OK env F (D + 1 + 1))
+    (fun blk rest ev => ItemEvent blk rest ev (.typedef (plainTypedef v.x v.d1 blk)))
+    (by
+      intro w b' blk rest hst hk hmu ⟨hkw, hxne, hok⟩ hy
+      obtain ⟨hspec, ⟨f, r, hfr, _⟩, hhead, hpre, hfn, hx, hxv, hs, hF⟩ := hok
+      obtain ⟨bk, h0, hy⟩ := hy.cons_inv
+      unfold DeclToks.toks at hy
+      rw [hfr] at hy
+      obtain ⟨b1, h1, hy⟩ := Yields.cons_inv hy
+      obtain ⟨b0, h5, hy⟩ := hy.split
+      obtain ⟨bmid, h8, hy⟩ := hy.split
+      obtain ⟨bx, h10, hy⟩ := hy.cons_inv
+      obtain ⟨w7, ct, ev, hi7, hsig7, _, hst7, hev7, hk7, hid7, hpar7, _, _, hmu7, _⟩ :=
+        toplevel_typedef_pre env hp F (D + 1 + 1) w kw v.spec f r v.segs v.cst v.vol (tvs v.ops) v.ops v.x v.semi v.d1 bk b1 b0 bmid bx b' blk rest hst hxne hmu
+          (by rw [hnf]; simp) h0 hkw h1 hspec hfr h5 hhead h8 hpre hfn rfl h10 hx hxv hy.single_inv hs hF
+      exact ⟨w7, _, ev, hi7, hsig7, hst7, hev7, ⟨hk7, hid7, hpar7⟩, hmu7⟩)
+
+/-- `typedef S prefix x ;` in a class body -/
+def Member.typedefPre (kw : Tok) (v : DeclToks) : Member env F (core F (D + 1 + 1 + 1 + 1)) :=
+  Member.single (fun b b' => (kw.type = "typedef" ∧ v.x.value ≠ "" ∧ v.OK env F (D + 1 + 1)) ∧ Yields env.cfg b (kw :: v.toks) b')
+    (fun blk rest _ ev => ItemEvent blk rest ev (.typedef (plainTypedef v.x v.d1 blk)))
+    (by
+      intro b b' k ⟨hok, hy⟩ hs
+      obtain ⟨k', hy', hs'⟩ := hy.sigEq hs
+      exact ⟨k', ⟨hok, hy'⟩, hs'⟩)
+    (by
+      intro w b' blk rest acc hst hk hacc hmu ⟨⟨hkw, hxne, hok⟩, hy⟩
+      obtain ⟨hspec, ⟨f, r, hfr, _⟩, hhead, hpre, hfn, hx, hxv, hs, hF⟩ := hok
+      obtain ⟨bk, h0, hy⟩ := hy.cons_inv
+      unfold DeclToks.toks at hy
+      rw [hfr] at hy
+      obtain ⟨b1, h1, hy⟩ := Yields.cons_inv hy
+      obtain ⟨b0, h5, hy⟩ := hy.split
+      obtain ⟨bmid, h8, hy⟩ := hy.split
+      obtain ⟨bx, h10, hy⟩ := hy.cons_inv
+      obtain ⟨w7, ct, ev, hi7, hsig7, _, hst7, hev7, hk7, hid7, hpar7, _, _, hmu7, _⟩ :=
+        toplevel_typedef_pre env hp F (D + 1 + 1) w kw v.spec f r v.segs v.cst v.vol (tvs v.ops) v.ops v.x v.semi v.d1 bk b1 b0 bmid bx b' blk rest hst hxne hmu
+          (by rw [hnf]; simp) h0 hkw h1 hspec hfr h5 hhead h8 hpre hfn rfl h10 hx hxv hy.single_inv hs hF
+      exact ⟨w7, _, ev, hi7, hsig7, hst7, hev7, ⟨hk7, hid7, hpar7⟩, hmu7⟩)
+
+/-- `using A = S prefix ;` at namespace scope: any type specifier (a type-id may end at `;`: `TypeSpecS`), any abstract
+    declarator prefix -/
+def Item.aliasPre (kw a eq : Tok) (spec : List Tok) (segs : List PQSeg) (cst vol : Bool) (ops : List Tok) (semi : Tok) (d1 : DType) :
+    Item env F (core F (D + 1 + 1 + 1 + 1)) :=
+  Item.ofToks env F (kw :: a :: eq :: (spec ++ (ops ++ [semi])))
+    (kw.type = "using" ∧ a.type = "NAME" ∧ eq.type = "=" ∧ TypeSpecS env F (D + 1 + 1) spec segs cst vol ∧ (∃ f r, spec = f :: r) ∧
+      (∀ p ∈ (tvs ops).head?, declStart p.1 = true) ∧
+      PrefixSpec env F (D + 1 + 1 + 1) (.type (.mk segs none false) cst vol) (tvs ops) d1 ∧ isFnType d1 = false ∧ semi.type = ";" ∧ 2 ≤ F)
+    (fun blk rest ev => ∃ d, ItemEvent blk rest ev (.usingAlias (plainAlias a d1 blk d)))
+    (by
+      intro w b' blk rest hst hk hmu ⟨h1, h2, h3, hspec, ⟨f, r, hfr⟩, hhead, hpre, hfn, h9, h10⟩ hy
+      obtain ⟨bk, t0, hy⟩ := hy.cons_inv
+      obtain ⟨ba, t1, hy⟩ := hy.cons_inv
+      obtain ⟨bq, t2, hy⟩ := hy.cons_inv
+      rw [hfr] at hy
+      obtain ⟨b1, t3, hy⟩ := Yields.cons_inv hy
+      obtain ⟨b0, hy0, hy⟩ := hy.split
+      obtain ⟨bmid, hy1, hy⟩ := hy.split
+      obtain ⟨d, bD, w7, ct, ev, _, hi7, hb, _, hst7, hev7, hk7, hid7, hpar7, _, _, hmu7, _⟩ :=
+        toplevel_using_alias_pre env hp F (D + 1 + 1) w kw a eq spec f r segs cst vol (tvs ops) ops semi d1 bk ba bq b1 b0 bmid b' blk rest hst hmu
+          (by rw [hnf]; simp) t0 h1 t1 h2 t2 h3 t3 hspec hfr hy0 hhead hy1 hpre hfn rfl hy.single_inv h9 h10
+      exact ⟨w7, _, ev, hi7, by rw [hb]; exact .refl _, hst7, hev7, ⟨d, hk7, hid7, hpar7⟩, hmu7⟩)
 
 end kinds
 
